@@ -16,7 +16,7 @@ PROPS = {
     "C11": dict(
         pid=11,
         coq=["Common/ListLemmas.v", "Promise/Model.v", "Promise/Spec.v", "Promise/Proofs.v", "Promise/ProofsMon.v", "Promise/ProofsMon2.v",
-             "Promise/Props_C11.v"],
+             "Promise/ProofsElide.v", "Promise/Props_C11.v"],
         props_file="Promise/Props_C11.v",
         models=[
             dict(name="promise", pkg="./promisex", test="TestPromise", coq_mod="Promise.Spec", run_check="run_check_promise",
@@ -27,7 +27,7 @@ PROPS = {
                       "container SetPromise incl. nil and the same promise, container SetResult, GetPromise; one HoldLock section at a time; the n-th awaiter "
                       "of a history brings a context of flavour n mod 4: 0, 2 plain WithCancel, 1 ending like a deadline (Err() = DeadlineExceeded), 3 cancelled "
                       "with a cause; error codes tell context.Canceled / DeadlineExceeded / the cause / the harness's other errors / anything else apart; in a "
-                      "third of the histories container awaiters also park at the exit gate so that several select cases are ready) + every tenth history a "
+                      "third of the histories container awaiters also park at the exit gate so that several select cases are ready; thorough tier only: one saturation history, 2^32 SetResult calls on one resolved promise of which the calls number 2^8+1, 2^16+1 and 2^32+1 are recorded events and the others, no-ops by c11_setresult_on_resolved_is_noop, are elided) + every tenth history a "
                       "free-running stress history (100 rounds of 2-5 SetResult calls racing with 1-5 awaiters on a fresh promise, real parallelism, no gates: "
                       "exactly one true, every awaiter got that call's result, no panic) + corpus (D11, D20); "
                       "distinct = distinct event sequence; non-trivial = >= 8 events, an actor observed blocked and an await observed returned"),
